@@ -49,7 +49,7 @@ CORPUS = CORPUS2 + [  # repaired defects F4, F5 and seeds, as abstract pairs (bo
 
 def gen_pairs(ctx, groups: bool):
     rnd = random.Random(ctx.seed + (11 if groups else 13))
-    n = 330 if ctx.tier == "quick" else 6000
+    n = 330 if ctx.tier == "quick" else 3000
     pairs = [(pl, b, t) for pl, b, t in CORPUS]
     for _ in range(n):
         plat = rnd.choice(["ios", "nxos"])
